@@ -36,6 +36,20 @@ CHECKS = {
               "is covered by the traversal model of C03, not here."),
         note=COMMON_NOTE + "The token split of rerun_status/stop_status and int() parsing of max_tries are reproduced by the harness; statuses are an 8-value enumeration; durations are integers (exact under the float comparison).",
         design="§5 C10"),
+    "C11": dict(
+        engine="corr-pure",
+        technique="Coq proof (induction over the argument list of a string-level model of the tokenizing loop: rejection lemmas, monotone flags for the nets conflict, characterisation of tests_str and of param_dict; list lemmas for the restriction semantics) + model/implementation correspondence by vm_compute against params_from_cmd and against the Cartesian parser (parse_flat_nodes)",
+        text=("Theorems over Model/CmdLine.v (arguments as strings, any list): tests_str is exactly the only=/no= arguments in order plus the default "
+              "primary restriction iff none of their variants is a primary restriction; a free K=V ends in param_dict with the last value and commas "
+              "as spaces; a malformed argument, an unknown vm in vms=, a restriction of an unknown object, and nets= together with an effective "
+              "only_nets/no_nets in either order make the command line fail wherever they stand. Over Model/Restr.v: selection = universe "
+              "filtered by every only (match) and no (no match) line; repeated only lines intersect, in any grouping; two comma-free only= "
+              "equal the '..' form (with the counterexample for commas); contiguity characterised. Compared with params_from_cmd on generated "
+              "argument lists (incl. a malformed stream) and with parse_flat_nodes over the shipped suite's 138 flat tests. Two defects found this way "
+              "were repaired (fix: 9558fd9, 902d1ac). PARTIAL: 'the override reaches every parsed test' is covered only through the param_dict handed "
+              "to the parser, not by a model of the Cartesian parser."),
+        note=COMMON_NOTE + "Configuration data (available vms / restrictions, configured defaults, answers of all_suffixes_by_restriction) is read from the real configs by the harness and passed to the model as its environment; \\w is modelled as [A-Za-z0-9_]; virttest's Cartesian Filter is modelled by Restr.matches (checked against the real parser, not proved).",
+        design="§5 C11"),
     "C12": dict(
         engine="corr-pure",
         technique="Coq proof (case analysis for the policy table; refinement of the call-level model to a set-of-names specification by induction over the object list and over operation sequences; frame and call-addressing invariants) + model/implementation correspondence by vm_compute (exhaustive single-object product + random sequences)",
